@@ -5,6 +5,7 @@ package redis
 import (
 	"fmt"
 	"strings"
+	"time"
 
 	"github.com/samaritan-proxy/samaritan/proc/internal/log"
 	"github.com/samaritan-proxy/samaritan/verifrt/sched"
@@ -269,6 +270,40 @@ func c01manyInFlightBody() {
 	sched.SetOutcome(fmt.Sprintf("%s %d", kind, n))
 }
 
+// C01 (S) a late reply: a pipeline over two nodes of which one answers some milliseconds after the other (the
+// clock advances while the first replies wait in the session), all schedules of the moment the late answer
+// arrives (set-up on the default schedule).
+func c01lateReplyBody() {
+	sched.SetQuiet(true)
+	s, a, b := c01stack()
+	m1 := s.cl.Masters()[1]
+	shape := sched.Choose(sched.ClsInput, 3, "pipeline")
+	cmd := func(args ...string) c01req {
+		return c01req{raw: resp.Encode(resp.Cmd(args...)), args: args, name: strings.ToLower(args[0])}
+	}
+	reqs := [][]c01req{
+		{cmd("GET", a), cmd("PING"), cmd("GET", b)},
+		{cmd("GET", a), cmd("GET", b), cmd("GET", a), cmd("GET", b)},
+		{cmd("MGET", a, b), cmd("GET", a), cmd("SET", b, "late")},
+	}[shape]
+	var raw []byte
+	for _, r := range reqs {
+		raw = append(raw, r.raw...)
+	}
+	late := []int64{1, 6, 50}[sched.Choose(sched.ClsInput, 3, "milliseconds")]
+	m1.Stalled = true
+	c := s.NewClient("c0")
+	c.Send(raw)
+	sched.WaitQuiescent()
+	sched.SetQuiet(false)
+	sched.AdvanceTime(late * int64(time.Millisecond))
+	m1.Stalled = false
+	sched.WaitQuiescent()
+	sched.SetQuiet(true)
+	c01check(s, fmt.Sprintf("pipeline %d, one node answers %d ms late", shape, late), reqs, c)
+	sched.SetOutcome(fmt.Sprintf("%d/%dms", shape, late))
+}
+
 func c01schedulesBody() {
 	s, a, b := c01stack()
 	alpha := c01alphabet(a, b)
@@ -378,7 +413,7 @@ func c01longBody() {
 	var raw []byte
 	for i := 0; i < 40; i++ {
 		var args []string
-		switch i % 4 {
+		switch i % 10 {
 		case 0:
 			args = []string{"GET", a}
 		case 1:
@@ -387,6 +422,19 @@ func c01longBody() {
 			args = []string{"MGET", a, b}
 		case 3:
 			args = []string{"GET", b}
+		// replies of every other shape: empty array, nil, nested and partly empty arrays, zero, empty string
+		case 4:
+			args = []string{"LRANGE", "missing" + a, "0", "-1"}
+		case 5:
+			args = []string{"GET", "missing" + b}
+		case 6:
+			args = []string{"EVAL", "return {{},{{}},{}}", "1", a}
+		case 7:
+			args = []string{"EXISTS", "missing" + a, "missing" + b}
+		case 8:
+			args = []string{"HGETALL", "missing" + b}
+		case 9:
+			args = []string{"MGET", "missing" + a, b, "missing" + b}
 		}
 		r := c01req{raw: resp.Encode(resp.Cmd(args...)), args: args, name: strings.ToLower(args[0])}
 		reqs = append(reqs, r)
@@ -428,5 +476,6 @@ func init() {
 	reg("C01/schedules", sched.Bounds{P: 1, F: 1, Sel: 1}, sched.Bounds{P: 2, F: 1, Sel: 1}, func(string) func() { return c01schedulesBody })
 	reg("C01/two-conns", sched.Bounds{P: 1, F: 1, Sel: 1}, sched.Bounds{P: 2, F: 1, Sel: 1}, func(string) func() { return c01twoConnsBody })
 	reg("C01/backend-fifo", sched.Bounds{P: 2, F: 2, Sel: 1}, sched.Bounds{P: 3, F: 2, Sel: 1}, func(string) func() { return c01fifoBody })
+	reg("C01/late-reply", sched.Bounds{P: 2, F: 1, Sel: 1}, sched.Bounds{P: 3, F: 2, Sel: 1}, func(string) func() { return c01lateReplyBody })
 	reg("C01/long-pipeline", sched.Bounds{F: 1}, sched.Bounds{P: 1, F: 1}, func(string) func() { return c01longBody })
 }
